@@ -438,7 +438,8 @@ class Ctx:
                 f"VIOLATION property={self.prop_id} replay={path.relative_to(VERIF)} no-failing-input-found"
             )
             rc = 1
-        self.write_evidence(len(oracle_v) + len(corr_v) + (1 if theorem_broken else 0))
+        if not getattr(self, "is_replay", False):  # a replay of one stored case does not describe a run
+            self.write_evidence(len(oracle_v) + len(corr_v) + (1 if theorem_broken else 0))
         for l in lines:
             say(l)
         if self._driver is not None:
